@@ -61,7 +61,13 @@ TRUSTED = [
 PROPS_FILES = ["PyatvModel/Props/C03.lean", "PyatvModel/Props/C03Rtsp.lean", "PyatvModel/Props/C03Disp.lean"]
 KNOWN_SIG = "http-fifo:late-response-after-timeout"
 HTTP_WITNESS = "s,t0,s,rn:0"           # = PyatvModel.Props.C03.C03_http_counterexample
-TRANSPORTS = ["mrp", "companion", "http", "rtsp"]
+TRANSPORTS = ["mrp", "companion", "http", "rtsp", "tunnel"]
+
+
+def proto(transport):
+    """the tunnel is the MRP protocol on another connection class"""
+    return "mrp" if transport == "tunnel" else transport
+
 SETTLE = 50
 CUR = contextvars.ContextVar("c03_request", default=None)
 FAILED = 1000           # caller ids of requests whose transmission is made to raise
@@ -111,13 +117,14 @@ def model_tok(transport, e):
     pinned code does); MRP does not look at the message type"""
     if e[0] == "S":
         return "s"
-    if transport == "mrp" and e[0] in ("e", "o"):
+    if proto(transport) == "mrp" and e[0] in ("e", "o"):
         return tok(("r", e[1], e[2]))
     return tok(e)
 
 
 def model_line(transport, base, events):
     s = ",".join(model_tok(transport, e) for e in events) or "-"
+    transport = proto(transport)
     if transport == "mrp":
         return "keyed 1 1 0 %d %s" % (base, s)
     if transport == "companion":
@@ -140,13 +147,55 @@ def script_keys(base, events):
     return keys
 
 
+def frame_plan(events, sizes):
+    """tunnel: which consecutive message events travel in one data-stream frame.  `sizes` = wanted
+    frame sizes in order; a frame also ends at any other event and before a message carrying an
+    identifier already present in it (two messages for one identifier in ONE frame are below the
+    event granularity of the model).  Returns for every event the index of the last event of its
+    frame (None for non-messages)."""
+    sizes = list(sizes)
+    groups, cur, want = [], [], 0
+    for i, e in enumerate(events):
+        if e[0] in MSG:
+            if cur and len(cur) < want and (e[1] is None or all(events[j][1] != e[1] for j in cur)):
+                cur.append(i)
+            else:
+                if cur:
+                    groups.append(cur)
+                cur, want = [i], (sizes.pop(0) if sizes else 1)
+        elif cur:
+            groups.append(cur)
+            cur = []
+    if cur:
+        groups.append(cur)
+    last = [None] * len(events)
+    for g in groups:
+        for i in g:
+            last[i] = g[-1]
+    return last
+
+
+def regroup(events, steps, last):
+    """observations of a frame are made when its last message was handed over: give every
+    delivery / listener call back to the message (payload) it is about"""
+    steps = [list(s) for s in steps]
+    for i, l in enumerate(last):
+        if l is None or l == i or l >= len(steps):
+            continue
+        v = events[i][2]
+        mine = [t for t in steps[l] if t[0] in ("dlv", "dsp") and t[3] == v]
+        steps[l] = [t for t in steps[l] if t not in mine]
+        steps[i] += mine
+    return steps
+
+
 def resp(transport, base, i):
     """the device's answer to request i (keys: allocation order, no burns in structured scripts)"""
     return ("r", None if transport == "http" else base + i, i)
 
 
 def kinds(transport):
-    return {"mrp": ("r", "e"), "companion": ("r", "e", "o")}.get(transport, ("r",))
+    return {"mrp": ("r", "e"), "companion": ("r", "e", "o")}.get(proto(transport), ("r",))
 
 
 def uvariants(transport, base, n):
@@ -156,7 +205,7 @@ def uvariants(transport, base, n):
         return [("r", None)]
     own = [base + i for i in range(n)]
     out = [("r", k) for k in [None, base + 900] + own]
-    if transport == "mrp":          # the type is not looked at: collisions only
+    if proto(transport) == "mrp":          # the type is not looked at: collisions only
         out += [("e", k) for k in own]
     if transport == "companion":
         out += [("e", k) for k in [None, base + 900] + own] + [("o", k) for k in [None] + own[:1]]
@@ -190,7 +239,7 @@ def interleavings2(transport, base):
                     if sent != ans:
                         continue
             uvs = uvariants(transport, base, 2) if "u" in pos else [None]
-            resend = (False, True) if transport in ("mrp", "companion") else (False,)
+            resend = (False, True) if proto(transport) in ("mrp", "companion") else (False,)
             for uv in uvs:
                 for rs in resend:
                     if rs and uv is not None and uv != uvs[0]:
@@ -248,7 +297,7 @@ def structured(transport, base, n, rng):
                 evs, nsent = [], 0
                 for j in range(len(tail) + 1):
                     for _ in range(slots.count(j)):
-                        if nsent and transport in ("mrp", "companion") and rng.chance(0.3):
+                        if nsent and proto(transport) in ("mrp", "companion") and rng.chance(0.3):
                             evs.append(("S", rng.randrange(nsent)))
                         else:
                             evs.append(("s",))
@@ -312,7 +361,7 @@ def random_script(transport, base, rng, nmax=5, maxlen=18):
             break
         c = rng.choice(choices)
         if c == "s":
-            if keys and transport in ("mrp", "companion") and rng.chance(0.3):
+            if keys and proto(transport) in ("mrp", "companion") and rng.chance(0.3):
                 evs.append(("S", rng.randrange(len(keys))))   # same request object again
             else:
                 evs.append(("s",))
@@ -346,7 +395,7 @@ def random_script(transport, base, rng, nmax=5, maxlen=18):
                 k = base + 900 + uns        # never allocated
             elif sel == 2 and keys and kd != "r":
                 k = rng.choice(keys)        # collides with an outstanding / completed / abandoned request
-            elif transport == "mrp":
+            elif proto(transport) == "mrp":
                 k = base + 900 + uns
             else:
                 k = nkey + rng.randint(0, 1)  # not yet allocated (a later request may get it)
@@ -559,7 +608,7 @@ class MrpAdapter:
             def __str__(self):
                 return "verif"
 
-        self.prot = mp.MrpProtocol(Conn(), None, None, None)
+        self.prot = mp.MrpProtocol(self.make_connection(Conn), None, None, None)
         self.prot._state = mp.ProtocolState.READY
         self.types = [protobuf.GENERIC_MESSAGE, protobuf.SET_STATE_MESSAGE, protobuf.VOLUME_DID_CHANGE_MESSAGE]
         self.subs = parse_subs(subs)
@@ -572,6 +621,9 @@ class MrpAdapter:
             else:
                 self.prot.listen_to(self.types[ty], self.callables.get(lid),
                                     (lambda ff: lambda m: accepts(ff, adapter.payload(m)))(f))
+
+    def make_connection(self, conn_class):
+        return conn_class()
 
     def expected_listeners(self, k, v):
         return expected_calls(self.subs, self.type_of.get(v, 0), v)
@@ -607,12 +659,70 @@ class MrpAdapter:
     def burn(self):
         raise RuntimeError("no burn in MRP")
 
-    def recv(self, kind, k, v):
+    def build(self, kind, k, v):
         ti = MSG.index(kind)            # the message type; MRP matching does not look at it
         self.type_of[v] = ti
         msg = self.messages.create(self.types[ti], identifier=self.real(k))
         msg.uniqueIdentifier = str(v)
-        self.prot.message_received(msg, None)
+        return msg
+
+    def recv(self, kind, k, v):
+        self.prot.message_received(self.build(kind, k, v), None)
+
+
+class TunnelAdapter(MrpAdapter):
+    """MRP tunnelled over AirPlay: real DataStreamChannel.handle_received -> decode_protobufs ->
+    AirPlayMrpConnection.handle_protobuf -> MrpProtocol.message_received; the device may put
+    several MRP messages into one data-stream frame.  HAP encryption is bypassed: frames are put
+    into channel.buffer, outgoing frames are taken at channel.send."""
+
+    def make_connection(self, conn_class):
+        from pyatv.protocols.airplay import channels
+        from pyatv.protocols.airplay.mrp_connection import AirPlayMrpConnection
+
+        adapter = self
+        self.channels = channels
+        self.channel = channels.DataStreamChannel(32 * b"\x01", 32 * b"\x02")
+        self.channel.transport = FakeTransport(lambda data: None)
+        self.seqno = 1
+
+        def send(data):
+            message, _, _ = channels.DataStreamChannel.decode_message(data)
+            if message is None or not message.message_type.startswith(b"sync"):
+                return                      # replies to the device's own frames
+            payload = channels.DataStreamChannel.decode_payload(message.payload)
+            for pb in channels.DataStreamChannel.decode_protobufs(payload["params"]["data"]):
+                adapter.keys.append(pb.identifier)
+                if adapter.fail_next:
+                    adapter.fail_next = 0
+                    raise SendFault("data channel send raises")
+                adapter.obs.add("snt", adapter.nsent, adapter.mkey(pb.identifier))
+                adapter.nsent += 1
+
+        self.channel.send = send
+
+        class Session:
+            data_channel = self.channel
+
+        self.conn = AirPlayMrpConnection(Session())
+        self.conn.data_channel = self.channel      # = connect()
+        self.channel.listener = self.conn
+        self.pending = []
+        return self.conn
+
+    def recv(self, kind, k, v, last=True):
+        """queue the message; the frame goes to the channel with its last message"""
+        self.pending.append(self.build(kind, k, v))
+        if not last:
+            return
+        ch = self.channels
+        msgs, self.pending = self.pending, []
+        frame = ch.DataStreamChannel.encode_message(ch.DataStreamMessage(
+            b"sync" + 8 * b"\x00", b"comm", self.seqno, ch.DATA_HEADER_PADDING,
+            ch.DataStreamChannel.encode_payload({"params": {"data": ch.DataStreamChannel.encode_protobufs(msgs)}})))
+        self.seqno += 1
+        self.channel.buffer += frame
+        self.channel.handle_received()
 
 
 class CompanionAdapter:
@@ -848,15 +958,22 @@ async def run_script(transport, base, events, subs=DEFAULT_SUBS):
         deadlines[FAILED + i] = t0 + 1.0e7
 
     obs.begin()
+    orig_subs = subs
+    subs, _, frames = (subs or "").partition("#")
     if transport == "mrp":
         ad = MrpAdapter(obs, base, subs or DEFAULT_SUBS)
+    elif transport == "tunnel":
+        ad = TunnelAdapter(obs, base, subs or DEFAULT_SUBS)
     elif transport == "companion":
         ad = CompanionAdapter(obs, base)
     elif transport == "http":
         ad = HttpAdapter(obs, base)
     else:
         ad = RtspAdapter(obs, base, deadlines)
+    if orig_subs and hasattr(ad, "subs_text"):
+        ad.subs_text = orig_subs
     obs.steps.clear()
+    plan = frame_plan(events, [int(x) for x in frames.split(",")] if frames else [])
 
     async def caller(r, obj):
         CUR.set(r)
@@ -887,7 +1004,7 @@ async def run_script(transport, base, events, subs=DEFAULT_SUBS):
     ftasks = []
     ti = 0
     try:
-        for e in events:
+        for ei, e in enumerate(events):
             obs.begin()
             try:
                 if e[0] == "F":
@@ -898,6 +1015,8 @@ async def run_script(transport, base, events, subs=DEFAULT_SUBS):
                     tasks.append(asyncio.ensure_future(caller(len(tasks), obj)))
                 elif e[0] == "b":
                     ad.burn()
+                elif e[0] in MSG and transport == "tunnel":
+                    ad.recv(e[0], e[1], e[2], last=plan[ei] == ei)
                 elif e[0] in MSG:
                     ad.recv(e[0], e[1], e[2])
                 else:
@@ -918,6 +1037,8 @@ async def run_script(transport, base, events, subs=DEFAULT_SUBS):
         if hasattr(ad, "restore"):
             ad.restore()
     steps = obs.steps[:len(events)]
+    if transport == "tunnel":
+        steps = regroup(events, steps, plan)
     return steps, ad
 
 
@@ -967,7 +1088,7 @@ def oracle(transport, base, events, steps, ad, perm_script):
     """The property text evaluated on the observations of the real code.  Returns
     [(sig, what)].  Independent of the Lean model."""
     problems = []
-    keyed = transport in ("mrp", "companion", "rtsp")
+    keyed = proto(transport) in ("mrp", "companion", "rtsp")
     wire = {}          # request -> identifier seen on the wire
     outcome = {}       # request -> (step, token)
     recv_at = {}       # payload -> (step, kind, key)
@@ -990,7 +1111,7 @@ def oracle(transport, base, events, steps, ad, perm_script):
         response type); Companion only a response frame can answer — an event is not an answer"""
         if transport == "http":
             return v if v < 100 and kind == "r" else None
-        if kind != "r" and transport != "mrp":
+        if kind != "r" and proto(transport) != "mrp":
             return None
         return skeys.index(k) if k in skeys else None
 
@@ -1043,7 +1164,7 @@ def oracle(transport, base, events, steps, ad, perm_script):
             got = [t for t in step if t[0] == "dlv" and t[3] == v]
             lst = [t for t in step if t[0] == "dsp" and t[3] == v]
             if target is None:
-                if transport == "mrp" or (transport == "companion" and kind == "e"):
+                if proto(transport) == "mrp" or (transport == "companion" and kind == "e"):
                     want = sorted(ad.expected_listeners(k, v))
                     have = sorted(t[1] for t in lst)
                     if have != want:
@@ -1052,7 +1173,7 @@ def oracle(transport, base, events, steps, ad, perm_script):
                 if got:
                     pass  # already reported as misdelivery above
             else:
-                if transport in ("mrp", "companion", "http") and not any(t[1] == target for t in got):
+                if proto(transport) in ("mrp", "companion", "http") and not any(t[1] == target for t in got):
                     add("response-not-delivered", "message %s%s:%d answers waiting request %d but was not returned "
                         "to it (step: %s)" % (kind, k, v, target, step))
         if e[0] == "t":
@@ -1114,19 +1235,25 @@ def gen_cases(ctx):
         base = 0 if transport != "companion" else rng.fork("base", transport).randint(0, 65536)
         rs = rng.fork("subs", transport)
 
-        def subs():
-            # MRP: the listener set varies from script to script
-            return random_subs(rs) if transport == "mrp" else None
+        def subs(evs=()):
+            # MRP: the listener set varies from script to script; tunnel: 1..3 messages per frame
+            if proto(transport) != "mrp":
+                return None
+            text = random_subs(rs)
+            if transport == "tunnel":
+                text += "#" + ",".join(str(rs.randint(1, 3)) for e in evs if e[0] in MSG)
+            return text.rstrip("#")
 
-        for evs in interleavings2(transport, base):
-            cases.append((transport, base, evs, subs()))
+        for evs in (interleavings2(transport, base) if transport != "tunnel" or ctx.thorough else []):
+            cases.append((transport, base, evs, subs(evs)))
         for n in ([3, 4] if ctx.thorough else [3]):
             for evs in structured(transport, base, n, rng.fork("stagger", transport, n)):
-                cases.append((transport, base, evs, subs()))
+                cases.append((transport, base, evs, subs(evs)))
         r2 = rng.fork("random", transport)
         for _ in range(ctx.scale(1000, 8000)):
             b = 0 if transport != "companion" else r2.randint(0, 65536)
-            cases.append((transport, b, random_script(transport, b, r2), subs()))
+            evs = random_script(transport, b, r2)
+            cases.append((transport, b, evs, subs(evs)))
     # the dispatcher alone: subscription sets x messages
     r3 = rng.fork("disp")
     for _ in range(ctx.scale(400, 4000)):
@@ -1213,7 +1340,7 @@ def run(ctx, only=None):
         transport, base, evs, steps, ad = res
         script = show(evs)
         case = {"transport": transport, "base": base, "script": script}
-        if transport == "mrp" and ad is not None:
+        if proto(transport) == "mrp" and ad is not None:
             case["subs"] = ad.subs_text
         nreq = sum(1 for e in evs if e[0] in SENDS)
         ctx.note("transport:" + transport)
